@@ -478,11 +478,13 @@ class Residues():
         Adds a new residues to the list of residues.
         """
         self.all_residues.append(resi)
-        # Collect dict with class: numbers
-        if resi.residue_class in self.residue_classes:
-            self.residue_classes[resi.residue_class].append(resi.residue_number)
+        # Collect dict with class: numbers. SHELXL is not case sensitive and restraints look a class up in
+        # upper case (SADI_ccf3 -> 'CCF3'), so the class is filed in upper case as well:
+        residue_class = resi.residue_class.upper()
+        if residue_class in self.residue_classes:
+            self.residue_classes[residue_class].append(resi.residue_number)
         else:
-            self.residue_classes[resi.residue_class] = [resi.residue_number]
+            self.residue_classes[residue_class] = [resi.residue_number]
 
     @property
     def residue_numbers(self):
